@@ -39,6 +39,7 @@ MIRRORS = [("python/eups/VersionCompare.py", "*"), ("python/eups/hooks.py", "*")
            ("python/eups/Eups.py", "Eups.findTaggedProduct"), ("python/eups/Eups.py", "Eups._findTaggedProduct"),
            ("python/eups/distrib/Repositories.py", "Repositories.findPackage"), ("python/eups/distrib/Repository.py", "Repository.findPackage"),
            ("python/eups/distrib/Repository.py", "Repository.listPackages"), ("python/eups/distrib/Repository.py", "Repository._getPackageLookup"),
+           ("python/eups/app.py", "listCache"), ("python/eups/app.py", "printProducts"),
            ("python/eups/Eups.py", "Eups.findProducts"), ("python/eups/Eups.py", "_TagSet"), ("python/eups/utils.py", "uniq"),
            ("python/eups/db/Database.py", "_Database.findProducts"), ("python/eups/db/Database.py", "_cmp_by_verflav"),
            ("python/eups/stack/ProductStack.py", "ProductStack.getVersions"), ("python/eups/stack/ProductFamily.py", "ProductFamily.getVersions")]
@@ -346,6 +347,19 @@ def _list_query(case, root, stacks):
         printed = {"err": "Malformed"}
     except Exception as ex:  # noqa
         printed = {"err": {"EupsException": "BadExpr", "ProductNotFound": "ProductNotFound"}.get(type(ex).__name__, "E:" + type(ex).__name__)}
+    def list_cache():
+        # `eups admin listCache -v`: one line per product and stack, its versions sorted with the comparator
+        import eups.app as app
+        buf = io.StringIO()
+        with contextlib.redirect_stdout(buf), contextlib.redirect_stderr(io.StringIO()):
+            app.listCache(path=list(stacks), verbose=1, flavor=e.flavor)
+        return [ln.split()[1:] for ln in buf.getvalue().splitlines() if ln.split()[:1] == ["prod"]]
+    try:
+        cache_lines = list_cache()
+    except AttributeError:
+        cache_lines = {"err": "Malformed"}
+    except Exception as ex:  # noqa
+        cache_lines = {"err": "E:" + type(ex).__name__}
     arg = case["version"]
     find = entry = None
     if arg:
@@ -360,7 +374,7 @@ def _list_query(case, root, stacks):
             return [ref(p), None if not why else "versionExpr" if why[0] == "versionExpr" else "explicit"]
         entry = guarded(vro)
     allv = list(dict.fromkeys(d["ver"] for st in case["stacks"] for d in st))
-    return {"products": res, "cli": printed, "find": find, "entry": entry, "preferred": list(e.preferredTags),
+    return {"products": res, "cli": printed, "list_cache": cache_lines, "find": find, "entry": entry, "preferred": list(e.preferredTags),
             "terms": {v: [impl_cmp(v, tv, True) for _, tv in case["terms"]] for v in allv},
             "order": {v: "".join(impl_cmp(w, v, False) for w in allv) for v in allv}}
 
@@ -1003,6 +1017,42 @@ def eval_list(ctx, c, inp, io_, ans):
         mcli = {"err": "ProductNotFound"}
     else:
         mcli = sorted([v, sorted(decl_.get((i, v), []))] for i, v in mo)
+    # `eups admin listCache -v`: the whole sorted list of every stack (not only its last element)
+    msorted = [x for x in ans["sorted"] if x != []]
+
+    def canon_ties(lines):
+        # listCache enumerates a stack through a set (`_uniquify`): versions that compare equal come in no particular order
+        if not isinstance(lines, list):
+            return lines
+        allv__ = list(dict.fromkeys(d["ver"] for st in stacks for d in st))
+        out = []
+        for line in lines:
+            if not isinstance(line, list):
+                out.append(line)
+                continue
+            groups = []
+            for v in line:
+                if groups and v in allv__ and groups[-1][-1] in allv__ and io_["order"][v][allv__.index(groups[-1][-1])] == "=":
+                    groups[-1].append(v)
+                else:
+                    groups.append([v])
+            out.append([v for g in groups for v in sorted(g)])
+        return out
+    if canon_ties(io_["list_cache"]) != canon_ties(msorted):
+        ctx.disagree("listCache_version_order", inp, io_["list_cache"], msorted)
+    if isinstance(io_["list_cache"], list):
+        allv_ = list(dict.fromkeys(d["ver"] for st in stacks for d in st))
+        nonempty = [st for st in stacks if st]
+        if len(io_["list_cache"]) != len(nonempty):
+            ctx.fail("sorted_listing_complete", inp, io_["list_cache"], msorted, note="%d lines for %d stacks with the product" % (len(io_["list_cache"]), len(nonempty)))
+        for line, st in zip(io_["list_cache"], nonempty):
+            ctx.hist("list/listCache-line-of-%d" % min(len(st), 4))
+            if sorted(line) != sorted(d["ver"] for d in st):
+                ctx.fail("sorted_listing_complete", inp, io_["list_cache"], msorted, note="the line is not the stack's versions: %r" % (line,))
+            for a, b in zip(line, line[1:]):
+                if a in allv_ and b in allv_ and io_["order"][b][allv_.index(a)] not in "<=":
+                    ctx.fail("sorted_listing_in_version_order", inp, io_["list_cache"], msorted, note="%r is printed before %r" % (a, b))
+                    break
     ctx.hist("list/cli=" + ("err:" + io_["cli"]["err"] if isinstance(io_["cli"], dict) else "lines"))
     if io_["cli"] != mcli:
         ctx.disagree("eups_list_output", inp, io_["cli"], mcli)
@@ -1442,7 +1492,7 @@ FLOORS = ("stack/branch=cache", "stack/branch=db", "stack/ties-inside-a-stack", 
           "match/text:word-or", "match/text:and", "match/text:no-blank-after-operator", "match/text:no-blank-around-||",
           "match/text:bare-term", "match/text:tab-or-double-blank", "match/text:and-after-or", "match/text:or-after-and",
           "match/oracle:match_iff_relation", "match/enumerated-token-sequence", "list/enumerated-family", "list/cli=lines",
-          "list/cli=err:ProductNotFound", "boundary-nines/sort:<", "wide/sort:=", "g1404/sort:<")
+          "list/cli=err:ProductNotFound", "list/listCache-line-of-4", "boundary-nines/sort:<", "wide/sort:=", "g1404/sort:<")
 
 
 def run_sizes(ctx, sz):
